@@ -40,7 +40,7 @@ ASSUMPTIONS = [
     'session_datagrams / bmc_never_objects quantify over the reference BMC family (every BmcCfg satisfying Setup), not over '
     'arbitrary third-party BMC implementations',
 ]
-TRUSTED = ['harness/translate/rmcp.py', 'harness/sim/fakesock.py', 'harness/props/c06.py']
+TRUSTED = ['harness/translate/rmcp.py', 'harness/translate/session.py', 'harness/sim/fakesock.py', 'harness/props/c06.py']
 
 _facts = None
 BOUNDARY32 = [1, 2, 0xff, 0x100, 0x7fffffff, 0x80000000, 0x01020304, 0xfffffffd, 0xfffffffe, 0xffffffff]
@@ -52,6 +52,9 @@ STEP_NAMES = ['ping', 'Get Channel Authentication Capabilities', 'Get Session Ch
 def translate(ctx):
     global _facts
     _facts = T.generate()
+    # statement-level shape of establish_session / close_session / the request builders (Gen/SessionShape.lean)
+    from ..translate import session as session_t
+    ctx.extra['session_shape_events'] = dict((k, len(v)) for k, v in session_t.generate().items())
 
 
 def _implemented():
